@@ -1,6 +1,6 @@
 (* C14 (vector part) — fused operations equal their documented compositions (on the generated terms, over R). *)
 From Coq Require Import Reals Arith.
-From SG Require Import Analysis.Vector Gen.GenVecKernels Proofs.VecKernelProofs.
+From SG Require Import Analysis.Vector Gen.GenVecKernels Proofs.VecKernelProofs Proofs.VecKernelProofsLossFwd Proofs.VecKernelProofsLossBwd.
 Open Scope R_scope.
 
 (* cross-entropy = NLL of log_softmax: values (term equality of the generated forward) ... *)
